@@ -179,6 +179,37 @@ func c03Append(r *core.Run, worker int, p adapt.Parser, in *Input) {
 	})
 	if cw != cx || !bytes.Equal(s1, s2) {
 		r.Violate(id+"|append-changes-result", fmt.Sprintf("%s: parse(w) consumes %d, parse(w++x) consumes %d; serialisations equal=%v (%s)", p.Name, cw, cx, bytes.Equal(s1, s2), in.Base), in.Case(p.Name))
+	} else if len(in.Devs) <= 1 && (in.Class == "append(00)" || in.Class == "append(self)" || !r.Quick() && in.Class != "append(every-length)" && in.Class != "append(byte)") && rw.Val != nil && res.Val != nil {
+		// "the parsed value does not change": not only its serialisation - everything it answers. Every exported
+		// non-mutating method (argument menus) on the value parsed from w and on the value parsed from w++x;
+		// calls whose answer differs between two parses of w itself (time, randomness) are not judged.
+		var w2 adapt.Parsed
+		core.Guard(func() { w2 = p.Fn(append([]byte(nil), w...)) })
+		if w2.OK && w2.Val != nil {
+			a, b2, c := indepCalls(rw.Val), indepCalls(w2.Val), indepCalls(res.Val)
+			sa, sb := map[string][32]byte{}, map[string][32]byte{}
+			for _, x := range a {
+				sa[x.key] = snapLeafOuts(x.out)
+			}
+			for _, x := range b2 {
+				sb[x.key] = snapLeafOuts(x.out)
+			}
+			for _, x := range c {
+				want, has := sa[x.key]
+				if !has || sb[x.key] != want {
+					continue
+				}
+				// accessors whose documented purpose is to expose the bytes that FOLLOWED the certificate's declared
+				// payload ("excess bytes", "raw bytes"): they answer with the appended bytes by design
+				if containsAny(x.key, "ExcessBytes", "RawBytes", "KeyCertificate.Data()") {
+					continue
+				}
+				if snapLeafOuts(x.out) != want {
+					r.Violate(id+"|append-changes-what-the-value-answers|"+x.key, fmt.Sprintf("%s: %s answers differently on the value parsed from w and on the value parsed from w++x (same bytes consumed, same serialisation) (%s)", p.Name, x.key, in.Base), in.Case(p.Name))
+					break
+				}
+			}
+		}
 	}
 	r.Distinct([]byte(p.Name), []byte("append"), in.Bytes[:min(len(in.Bytes), 700)], []byte{byte(len(in.Bytes) >> 8), byte(len(in.Bytes))})
 }
